@@ -772,6 +772,8 @@ func genC15(tier string, seed uint64) {
 		q, _ := dnsQuery(r)
 		runRelayUDP(5353, "dns", q)
 	}
+	// the ssh proxy against a real ssh backend
+	genC15SSH(tier, r)
 	// the director's target
 	for _, h := range []string{"127.0.0.1", "127.0.0.1:81", "127.0.0.2:9", "[::1]:7", "127.0.0.3", "127.0.0.9:65535"} {
 		for _, p := range []int{1, 80, 8080, 65535} {
